@@ -47,6 +47,7 @@ class Recorder:
         self.line_events = 0
         self.strategy_inputs = []
         self.reduce_spans = []
+        self.reduce_starts = []
         self.simp_origin = {}
         self.cur_task = {}
         self.fallback_active = False
